@@ -130,7 +130,10 @@ class LockedMachine(Machine):
     # references. This should induce no restrictions compared to transitions 0.8.8 but enable the usage of unhashable
     # objects in locked machine.
     def __getstate__(self):
-        state = {k: v for k, v in self.__dict__.items()}
+        # cooperate with mixins further down the MRO (e.g. HierarchicalMachine) which customize pickling
+        parent = getattr(super(LockedMachine, self), "__getstate__", None)
+        state = parent() if parent is not None else None
+        state = dict(state) if isinstance(state, dict) else dict(self.__dict__)
         del state['model_context_map']
         state['_model_context_map_store'] = {mod: self.model_context_map[id(mod)] for mod in self.models}
         return state
